@@ -9,7 +9,11 @@
    Part 4  the visitor, all 22 node kinds (tree_inv), whatever the verdict
    Part 5  the theorems: checker_tree_ok, checker_establishes_ok_full, typed_vs_untyped
    Part 6  fast_sound is NOT a consequence of fenv_ok; a sufficient condition
-   Part 7  method sites cannot follow from static typing (refutation), non-vacuity universe *)
+   Part 7  a universe (BWit): non-vacuity; refutations of the statement without the carve-outs
+           (declared parameter type; method sites cannot follow from static typing)
+   Part 8  on raw sources bridge_scope is weaker than C03's in_scope
+   Part 9  any two configurations (variants_agree)
+   Part 10 a carve-out on the source alone (bridge_scope_src): no hypothesis about sites is left *)
 From Coq Require Import ZArith Bool List String Floats Lia Permutation.
 Require Import X.Base.Num X.Base.NumProofs X.Base.Value X.Syn.Ast X.Sem.Prim X.Sem.Sem.
 Require Import X.Ty.Types X.Ty.TypesTable X.Ty.TyProofs X.Ty.Checker X.Ty.CheckProofs X.Ty.Sound X.Ty.SoundProofs.
@@ -427,8 +431,12 @@ Variable p : expr -> bool.
 Hypothesis Hp_lit : forall x, p x = true -> lit_raw x = true.
 Hypothesis Hp_fn : forall x, p x = true -> node_scope c x = true.
 Hypothesis Hcallee : callee_ok c fe env.
-
-Notation Q := (site_est fe env).
+(* what is to be established of every call site: Q.  Function sites get site_ok; for method sites
+   the instance says what is known (nothing: site_est; or no retyped argument at all: site_ok) *)
+Variable Q : site -> Prop.
+Hypothesis HQ_fn : forall st, st_method st = false -> site_ok fe env st -> Q st.
+Hypothesis HQ_m : forall an x nm args ns j a k, p (EMethod an x nm args ns) = true ->
+  nth_error args j = Some a -> is_arith a = true -> Q (mkSite true nm j k).
 
 (* what is kept of a subtree: same source, well annotated, sites established *)
 Definition inv (e e' : expr) : Prop :=
@@ -616,7 +624,7 @@ Proof.
     destruct (method_callee c t nm) as [[fn m]|].
     + match goal with |- context [check_func ?va fn m ?l args ?s0] =>
         pose proof (check_func_b cols fn m l args s0 true nm HF2 Aa
-                      (fun _ _ _ _ j _ k _ _ _ => or_introl eq_refl)) as V;
+                      (fun _ _ _ _ j a k N Ha _ => HQ_m an x nm args nsf j a k A0 N Ha)) as V;
         destruct (check_func va fn m l args s0) as [[t' args'] st2]
       end.
       cbn [fst snd] in V |- *. destruct V as (V1 & V2 & V3 & V4).
@@ -631,7 +639,7 @@ Proof.
     destruct (function_callee c nm) as [[fn m]|] eqn:Fc.
     + assert (Hs : forall ins v o, fn = TFunc ins v [o] -> forall j a k, nth_error args j = Some a -> is_arith a = true ->
                    tgt (param_ty ins v m j) = Some k -> Q (mkSite false nm j k)).
-      { intros ins v o -> j a k N Ha Ht. right. unfold function_callee in Fc.
+      { intros ins v o -> j a k N Ha Ht. apply HQ_fn; [reflexivity|]. unfold function_callee in Fc.
         destruct (lookup_name c nm) as [tg|] eqn:Hl; [|discriminate Fc].
         destruct (is_func_type (tg_ty tg)) as [fn0|] eqn:Hf; [|discriminate Fc]. inversion Fc; subst fn0 m.
         apply (function_site_ok c fe env nm tg ins v o args j a k Hcallee Hl Hf (Hp_fn _ A0) N Ha Ht). }
@@ -772,11 +780,11 @@ Theorem checker_tree_ok c fe env e :
   Forall (site_est fe env) (sites_full (checked c e)).
 Proof.
   intros Hc Hs. rewrite checked_visit.
-  destruct (tree_inv c fe env (fun x => lit_raw x && node_scope c x)) with (e := e) (cols := @nil ty) (st := @None (loc * cerr))
-    as (I1 & I2 & I3); auto.
-  - intros x H. apply andb_prop in H. destruct H as [H _]. exact H.
-  - intros x H. apply andb_prop in H. destruct H as [_ H]. exact H.
-  - unfold same_shape. auto.
+  destruct (tree_inv c fe env (fun x => lit_raw x && node_scope c x)
+              (fun x H => proj1 (andb_prop _ _ H)) (fun x H => proj2 (andb_prop _ _ H)) Hc
+              (site_est fe env) (fun st _ H => or_intror H) (fun _ _ _ _ _ _ _ _ _ _ _ => or_introl eq_refl)
+              e [] None Hs) as (I1 & I2 & I3).
+  unfold same_shape. auto.
 Qed.
 
 Theorem checker_tree_ok_untyped c fe env e :
@@ -785,11 +793,10 @@ Theorem checker_tree_ok_untyped c fe env e :
   Forall (site_est fe env) (sites_full (checked c e)).
 Proof.
   intros Hn Hs. rewrite checked_visit.
-  destruct (tree_inv c fe env lit_raw) with (e := e) (cols := @nil ty) (st := @None (loc * cerr))
-    as (I1 & I2 & I3); auto.
-  - intros x _. apply node_scope_untyped. exact Hn.
-  - apply callee_ok_untyped. exact Hn.
-  - unfold same_shape. auto.
+  destruct (tree_inv c fe env lit_raw (fun x H => H) (fun x _ => node_scope_untyped c x Hn) (callee_ok_untyped c fe env Hn)
+              (site_est fe env) (fun st _ H => or_intror H) (fun _ _ _ _ _ _ _ _ _ _ _ => or_introl eq_refl)
+              e [] None Hs) as (I1 & I2 & I3).
+  unfold same_shape. auto.
 Qed.
 
 Lemma sites_established fe env l :
@@ -916,3 +923,659 @@ Proof.
   rewrite (fo_sig _ _ _ _ Hfe id ins v o Hft) in Sg. injection Sg as <-. cbn [s_fast s_ins s_variadic] in F |- *.
   split; [exact (Hp id ins v o Hft F)|exact (fast_sig_variadic ins v o false F)].
 Qed.
+
+(* ================================================================== Part 7: a universe; non-vacuity; method sites *)
+Module BWit.
+Definition tint := TNum KInt.
+Definition tf64 := TNum KF64.
+Definition fld (n : string) (t : ty) : fielddef := mkField n t false true.
+Definition t_half := TFunc [tf64] false [tf64].
+Definition t_inc := TFunc [tint] false [tint].
+Definition t_fast := TFunc [TSlice TIface] true [TIface].
+Definition t_celsius := TNamed "Celsius" tf64.
+Definition t_warm := TFunc [t_celsius] false [TBool].
+
+(* type Env struct { I int; Y float64; Half func(float64) float64; Inc func(int) int;
+                     Fast func(...interface{}) interface{}; Warm func(Celsius) bool; A A; B B }
+   func (Env) Scale(float64) float64;  func (A) M(float64) float64;  func (B) M(int) int *)
+Definition te : tenv :=
+  [("Env", mkStruct
+      [fld "I" tint; fld "Y" tf64; fld "Half" t_half; fld "Inc" t_inc; fld "Fast" t_fast; fld "Warm" t_warm;
+       fld "A" (TStruct "A"); fld "B" (TStruct "B")]
+      [("Scale", TFunc [TStruct "Env"; tf64] false [tf64])]
+      [("Scale", TFunc [TPtr (TStruct "Env"); tf64] false [tf64])]);
+   ("A", mkStruct [] [("M", TFunc [TStruct "A"; tf64] false [tf64])] [("M", TFunc [TPtr (TStruct "A"); tf64] false [tf64])]);
+   ("B", mkStruct [] [("M", TFunc [TStruct "B"; tint] false [tint])] [("M", TFunc [TPtr (TStruct "B"); tint] false [tint])])].
+
+Definition tb : TypesTable.table :=
+  match create_types_table te perm_id (EStruct (TStruct "Env")) with Some t => t | None => [] end.
+
+(* compiled with expr.Env(Env{}) / without an environment *)
+Definition c1 : cconfig := mkCC te (Some tb) [] None true None.
+Definition c0 : cconfig := mkCC te None [] None false None.
+
+Definition va : value := VStruct "A" false [].
+Definition vb : value := VStruct "B" false [].
+Definition env : value :=
+  VStruct "Env" false
+    [("I", vint 3); ("Y", VNum (NFlt KF64 0.5)); ("Half", VFunc "Half" t_half); ("Inc", VFunc "Inc" t_inc);
+     ("Fast", VFunc "Fast" t_fast); ("Warm", VFunc "Warm" t_warm); ("A", va); ("B", vb)].
+
+Definition ftab (id : string) : option ty :=
+  if String.eqb id "Half" then Some t_half
+  else if String.eqb id "Inc" then Some t_inc
+  else if String.eqb id "Fast" then Some t_fast
+  else if String.eqb id "Warm" then Some t_warm
+  else if String.eqb id "Env.Scale" then Some t_half
+  else if String.eqb id "A.M" then Some t_half
+  else if String.eqb id "B.M" then Some t_inc
+  else None.
+
+Definition run (id : string) (recv : value) (args : list value) : outcome value :=
+  if String.eqb id "Half" then
+    match args with [VNum (NFlt KF64 x)] => Ok (VNum (NFlt KF64 (PrimFloat.div x 2))) | _ => Fail EOther end
+  else if String.eqb id "Inc" then
+    match args with [VNum (NInt KInt a)] => Ok (vint (wrap KInt (a + 1))) | _ => Fail EOther end
+  else if String.eqb id "Fast" then Ok (vint (Z.of_nat (List.length args)))
+  else if String.eqb id "Warm" then Ok (VBool true)
+  else if String.eqb id "Env.Scale" then
+    match args with [VNum (NFlt KF64 x)] => Ok (VNum (NFlt KF64 (PrimFloat.mul x 2))) | _ => Fail EOther end
+  else if String.eqb id "A.M" then
+    match args with [VNum (NFlt KF64 x)] => Ok (VNum (NFlt KF64 x)) | _ => Fail EOther end
+  else if String.eqb id "B.M" then
+    match args with [VNum (NInt KInt a)] => Ok (vint a) | _ => Fail EOther end
+  else Fail EOther.
+
+Definition meth (tn : string) (p : bool) (name : string) : option string :=
+  if String.eqb "Env" tn then (if String.eqb "Scale" name then Some "Env.Scale" else None)
+  else if String.eqb "A" tn then (if String.eqb "M" name then Some "A.M" else None)
+  else if String.eqb "B" tn then (if String.eqb "M" name then Some "B.M" else None)
+  else None.
+
+Definition sig (id : string) : option fsig :=
+  match ftab id with
+  | Some (TFunc ins v [o]) => Some (mkSig ins v 1 (fast_sig (TFunc ins v [o]) false))
+  | _ => None
+  end.
+
+Definition fe : fenv := mkFenv sig run meth (fun _ _ => Some true) (fun x _ => x).
+Definition cfg : config := mkCfg false 1000.
+
+Lemma perm_ok : forall l : TypesTable.table, Permutation (perm_id l) l.
+Proof. intros l. apply Permutation_refl. Qed.
+
+Lemma te_wf : wf_tenv te = true.
+Proof. vm_compute. reflexivity. Qed.
+
+Lemma empty_wf sn nn : sn = "A" \/ sn = "B" -> vwf te ftab nn (VStruct sn false []).
+Proof.
+  intros Hs. apply vwf_struct. split; [constructor|].
+  intros name pth ft R.
+  destruct Hs as [-> | ->].
+  - destruct (flat_resolve te "A" name pth ft true eq_refl R) as (f & Hin & _). destruct Hin.
+  - destruct (flat_resolve te "B" name pth ft true eq_refl R) as (f & Hin & _). destruct Hin.
+Qed.
+
+Lemma env_wf nn : vwf te ftab nn env.
+Proof.
+  apply vwf_struct. split.
+  - repeat (apply Forall_cons; [split; cbn [fst snd]|]); try apply Forall_nil;
+      try (intros pth ft R; vm_compute in R; inversion R; subst; first [right; reflexivity | left; reflexivity]).
+    all: try (apply empty_wf; auto; fail).
+    all: cbn; repeat split; auto.
+  - intros name pth ft R. destruct (flat_resolve te "Env" name pth ft true eq_refl R) as (f & Hin & <- & _ & _).
+    cbn in Hin. repeat (destruct Hin as [<-|Hin]; [cbn; discriminate|]). destruct Hin.
+Qed.
+
+Lemma env_is_ok nn : env_ok c1 perm_id ftab nn (TStruct "Env") "Env" env.
+Proof.
+  constructor.
+  - reflexivity.
+  - exists tb. split; [reflexivity|]. vm_compute. reflexivity.
+  - exists false, (match env with VStruct _ _ fs => fs | _ => [] end). split; reflexivity.
+  - exact (env_wf nn).
+Qed.
+
+Lemma fe_ok nn : fenv_ok te ftab nn fe.
+Proof.
+  constructor.
+  - intros id ins v o H. cbn [fn_sig fe]. unfold sig. rewrite H. reflexivity.
+  - intros id ins v o recv args r Hf Hr. cbn [fn_run fe] in Hr. unfold run in Hr. unfold ftab in Hf.
+    repeat match type of Hr with
+    | (if ?b then _ else _) = _ => destruct b
+    | match ?x with _ => _ end = _ => destruct x
+    end; try discriminate Hr; inversion Hr; inversion Hf; subst;
+      first [apply ty_vint | apply ty_bool | apply has_ty_iface; reflexivity
+            | apply (ty_num _ _ _ (NFlt KF64 _)); reflexivity ].
+  - intros id recv args e Hr. cbn [fn_run fe] in Hr. unfold run in Hr.
+    repeat match type of Hr with
+    | (if ?b then _ else _) = _ => destruct b
+    | match ?x with _ => _ end = _ => destruct x
+    end; inversion Hr; reflexivity.
+  - intros sn p name mt H. cbn [fn_method fe]. unfold meth, method_by_name, method_set, recv_ty in *.
+    destruct p; cbn [lookup_struct te] in H;
+      (destruct (String.eqb "Env" sn) eqn:E1;
+       [cbn -[String.eqb] in H; destruct (String.eqb "Scale" name); inversion H; eexists; split; reflexivity|]);
+      (destruct (String.eqb "A" sn) eqn:E2;
+       [cbn -[String.eqb] in H; destruct (String.eqb "M" name); inversion H; eexists; split; reflexivity|]);
+      (destruct (String.eqb "B" sn) eqn:E3;
+       [cbn -[String.eqb] in H; destruct (String.eqb "M" name); inversion H; eexists; split; reflexivity|]);
+      discriminate.
+  - intros sn p name H. cbn [fn_method fe]. unfold meth, method_by_name, method_set, recv_ty in *.
+    destruct p; cbn [lookup_struct te] in H;
+      (destruct (String.eqb "Env" sn) eqn:E1; [cbn -[String.eqb] in H; destruct (String.eqb "Scale" name); [discriminate|reflexivity]|]);
+      (destruct (String.eqb "A" sn) eqn:E2; [cbn -[String.eqb] in H; destruct (String.eqb "M" name); [discriminate|reflexivity]|]);
+      (destruct (String.eqb "B" sn) eqn:E3; [cbn -[String.eqb] in H; destruct (String.eqb "M" name); [discriminate|reflexivity]|]);
+      reflexivity.
+Qed.
+
+Lemma fe_fast_sound : fast_sound fe.
+Proof.
+  apply (fast_sound_of_listed te ftab false fe (fe_ok false)).
+  - intros id sg H. cbn [fn_sig fe] in H. unfold sig in H.
+    destruct (ftab id) as [t|] eqn:E; [|discriminate H].
+    destruct t as [| | | | | | | | |ins v outs| |]; try discriminate H. destruct outs as [|o [|o2 outs]]; try discriminate H.
+    exists ins, v, o. reflexivity.
+  - intros id ins v o H F. unfold ftab in H.
+    repeat match type of H with (if ?b then _ else _) = _ => destruct b end; inversion H; subst; try discriminate F; reflexivity.
+Qed.
+
+(* ---- the theorems apply to this universe ---- *)
+Lemma ok_full_applies (nn : bool) e t e' :
+  check c1 e = (t, e', None) -> bridge_scope c1 e = true -> no_method_sites e' = true ->
+  ok_full fe env e' /\ same_shape e e'.
+Proof.
+  exact (checker_establishes_ok_full_dec c1 perm_id ftab nn fe env (TStruct "Env") "Env" e t e'
+           perm_ok te_wf (env_is_ok nn) (fe_ok nn)).
+Qed.
+
+Lemma typed_vs_untyped_applies e t1 e1 t0 e0 :
+  bridge_scope c1 e = true -> check c1 e = (t1, e1, None) -> check c0 e = (t0, e0, None) ->
+  wf e1 = true -> wf e0 = true -> no_method_sites e1 = true -> no_method_sites e0 = true ->
+  forall cfg ctx s v1 s1 v0 s0,
+  eval fe cfg env ctx e1 s = Done v1 s1 -> eval fe cfg env ctx e0 s = Done v0 s0 -> v1 = v0 /\ s1 = s0.
+Proof.
+  exact (typed_vs_untyped_dec c1 c0 perm_id ftab false fe env (TStruct "Env") "Env" e t1 e1 t0 e0
+           perm_ok te_wf (env_is_ok false) (fe_ok false) fe_fast_sound eq_refl).
+Qed.
+
+(* ---- expressions ---- *)
+Definition a0 : ann := ann0.
+Definition id_ (n : string) : expr := EIdent a0 n false.
+(* Half(1 + 2) > 1.0 *)
+Definition half12 : expr :=
+  EBinary a0 BGt (EFunction a0 "Half" [EBinary a0 BAdd (EInt a0 1) (EInt a0 2)] false) (EFloat a0 1.0).
+(* I == 3 *)
+Definition i_eq_3 : expr := EBinary a0 BEq (id_ "I") (EInt a0 3).
+(* Half(1 + 2) > 1.0 and I == 3 *)
+Definition ex_brief : expr := EBinary a0 BAndWord half12 i_eq_3.
+(* I == 3 or Half(1 + 2) > 1.0 *)
+Definition ex_or : expr := EBinary a0 BOrWord i_eq_3 half12.
+(* Inc(1 + 2) > 1 and Fast(I, "a") == 2 *)
+Definition ex_calls : expr :=
+  EBinary a0 BAndWord
+    (EBinary a0 BGt (EFunction a0 "Inc" [EBinary a0 BAdd (EInt a0 1) (EInt a0 2)] false) (EInt a0 1))
+    (EBinary a0 BEq (EFunction a0 "Fast" [id_ "I"; EStr a0 "a"] false) (EInt a0 2)).
+(* Scale(2) > 1.0: a method of the environment called as a function (receiver stripped) *)
+Definition ex_scale : expr := EBinary a0 BGt (EFunction a0 "Scale" [EInt a0 2] false) (EFloat a0 1.0).
+(* Warm(20): the parameter is the declared type Celsius *)
+Definition ex_warm : expr := EFunction a0 "Warm" [EInt a0 20] false.
+(* A.M(1): a method call with a retyped literal *)
+Definition ex_meth : expr := EMethod a0 (id_ "A") "M" [EInt a0 1] false.
+
+Definition half_site : site := mkSite false "Half" 0 KF64.
+Definition scale_site : site := mkSite false "Scale" 0 KF64.
+Definition warm_site : site := mkSite false "Warm" 0 KF64.
+Definition m_site : site := mkSite true "M" 0 KF64.
+
+(* all decidable hypotheses of typed_vs_untyped_dec *)
+Definition hyps_hold (e : expr) : Prop :=
+  raw e = true /\ bridge_scope c1 e = true /\ snd (check c1 e) = None /\ snd (check c0 e) = None /\
+  wf (checked c1 e) = true /\ wf (checked c0 e) = true /\
+  no_method_sites (checked c1 e) = true /\ no_method_sites (checked c0 e) = true.
+
+Lemma ex_brief_hyps : hyps_hold ex_brief.
+Proof. vm_compute. repeat split. Qed.
+Lemma ex_or_hyps : hyps_hold ex_or.
+Proof. vm_compute. repeat split. Qed.
+Lemma ex_calls_hyps : hyps_hold ex_calls.
+Proof. vm_compute. repeat split. Qed.
+Lemma ex_scale_hyps : hyps_hold ex_scale.
+Proof. vm_compute. repeat split. Qed.
+
+Lemma check_split c e : check c e = (fst (fst (check c e)), checked c e, snd (check c e)).
+Proof. unfold checked. destruct (check c e) as [[t e'] st]. reflexivity. Qed.
+
+Lemma hyps_agree e : hyps_hold e ->
+  forall cfg ctx s v1 s1 v0 s0,
+  eval fe cfg env ctx (checked c1 e) s = Done v1 s1 -> eval fe cfg env ctx (checked c0 e) s = Done v0 s0 ->
+  v1 = v0 /\ s1 = s0.
+Proof.
+  intros (_ & Hs & A1 & A0 & W1 & W0 & M1 & M0).
+  apply (typed_vs_untyped_applies e (fst (fst (check c1 e))) (checked c1 e) (fst (fst (check c0 e))) (checked c0 e) Hs); auto.
+  - rewrite (check_split c1 e), A1. reflexivity.
+  - rewrite (check_split c0 e), A0. reflexivity.
+Qed.
+
+Lemma hyps_ok_full e : hyps_hold e -> ok_full fe env (checked c1 e) /\ same_shape e (checked c1 e).
+Proof.
+  intros (_ & Hs & A1 & _ & _ & _ & M1 & _).
+  apply (ok_full_applies false e (fst (fst (check c1 e)))); auto. rewrite (check_split c1 e), A1. reflexivity.
+Qed.
+
+(* the established site is a real one *)
+Lemma ex_brief_sites : sites_full (checked c1 ex_brief) = [half_site] /\ sites_full (checked c0 ex_brief) = [].
+Proof. vm_compute. split; reflexivity. Qed.
+
+Lemma ex_scale_sites : sites_full (checked c1 ex_scale) = [scale_site].
+Proof. vm_compute. reflexivity. Qed.
+
+Lemma half_site_ok : site_ok fe env half_site.
+Proof.
+  destruct (hyps_ok_full ex_brief ex_brief_hyps) as [[_ F] _]. rewrite (proj1 ex_brief_sites) in F.
+  inversion F; assumption.
+Qed.
+
+Lemma scale_site_ok : site_ok fe env scale_site.
+Proof.
+  destruct (hyps_ok_full ex_scale ex_scale_hyps) as [[_ F] _]. rewrite ex_scale_sites in F.
+  inversion F; assumption.
+Qed.
+
+(* the runs *)
+Definition run1 (e : expr) : result := eval fe cfg env [] (checked c1 e) rs0.
+Definition run0 (e : expr) : result := eval fe cfg env [] (checked c0 e) rs0.
+
+Definition res_true (tr : list (string * list value)) : result := Done (VBool true) (mkRS 0 tr).
+Definition f64 (z : Z) : value := VNum (NFlt KF64 (f_of_Z z)).
+
+(* the expression of the brief: with the declared type the literals are float64 and the call
+   succeeds; without it Half receives int(3) and reflect.Call panics - one side is not Done, the
+   agreement statement holds trivially *)
+Lemma ex_brief_runs :
+  run1 ex_brief = res_true [("Half", [f64 3])] /\ run0 ex_brief = Stop EReflect noloc rs0.
+Proof. vm_compute. split; reflexivity. Qed.
+
+(* both sides succeed although a retyped site is present (the call is not reached) *)
+Lemma ex_or_runs : run1 ex_or = res_true [] /\ run0 ex_or = res_true [].
+Proof. vm_compute. split; reflexivity. Qed.
+
+(* both sides succeed and call; the trees differ (annotations, OpEqualInt, Fast flag) *)
+Lemma ex_calls_runs :
+  run1 ex_calls = res_true [("Inc", [vint 3]); ("Fast", [vint 3; VStr "a"])] /\
+  run0 ex_calls = res_true [("Inc", [vint 3]); ("Fast", [vint 3; VStr "a"])] /\
+  checked c1 ex_calls <> checked c0 ex_calls.
+Proof. split; [vm_compute; reflexivity|]. split; [vm_compute; reflexivity|]. vm_compute. intros H. discriminate H. Qed.
+
+(* ---- the carve-out is needed: a declared parameter type ---- *)
+(* raw, accepted, but the literal is pushed as float64 where reflect.Call wants a Celsius *)
+Lemma ex_warm_facts :
+  raw ex_warm = true /\ bridge_scope c1 ex_warm = false /\ snd (check c1 ex_warm) = None /\
+  sites_full (checked c1 ex_warm) = [warm_site] /\ run1 ex_warm = Stop EReflect noloc rs0.
+Proof. vm_compute. repeat split. Qed.
+
+Lemma warm_site_not_ok : ~ site_ok fe env warm_site.
+Proof.
+  intros H. specialize (H env "Warm" (mkSig [t_celsius] false 1 false) (fun _ => eq_refl) eq_refl eq_refl).
+  discriminate H.
+Qed.
+
+(* ---- method sites: site_ok speaks about every callable named M ---- *)
+Lemma ex_meth_facts :
+  raw ex_meth = true /\ bridge_scope c1 ex_meth = true /\ in_scope c1 false ex_meth = true /\
+  snd (check c1 ex_meth) = None /\ sites_full (checked c1 ex_meth) = [m_site].
+Proof. vm_compute. repeat split. Qed.
+
+Lemma m_site_not_ok : ~ site_ok fe env m_site.
+Proof.
+  intros H. specialize (H vb "B.M" (mkSig [tint] false 1 false) (fun E => match Bool.diff_true_false E with end) eq_refl eq_refl).
+  discriminate H.
+Qed.
+End BWit.
+
+(* the statement without the carve-out and without the method-site hypothesis *)
+Definition checker_establishes_ok_full_statement : Prop :=
+  forall c perm ftab nn fe env T sn e t e',
+  (forall l, Permutation (perm l) l) -> wf_tenv (cc_te c) = true ->
+  env_ok c perm ftab nn T sn env -> fenv_ok (cc_te c) ftab nn fe ->
+  check c e = (t, e', None) -> raw e = true -> ok_full fe env e'.
+
+Lemma refute_with (e : expr) (st : site) :
+  raw e = true -> snd (check BWit.c1 e) = None -> sites_full (checked BWit.c1 e) = [st] ->
+  ~ site_ok BWit.fe BWit.env st -> ~ checker_establishes_ok_full_statement.
+Proof.
+  intros Hr Ha Hs Hn H.
+  destruct (H BWit.c1 perm_id BWit.ftab false BWit.fe BWit.env (TStruct "Env") "Env" e
+              (fst (fst (check BWit.c1 e))) (checked BWit.c1 e) BWit.perm_ok BWit.te_wf (BWit.env_is_ok false) (BWit.fe_ok false))
+    as [_ F]; auto.
+  - rewrite (BWit.check_split BWit.c1 e), Ha. reflexivity.
+  - rewrite Hs in F. inversion F; contradiction.
+Qed.
+
+(* refuted by `Warm(20)` (declared parameter type: outside bridge_scope) ... *)
+Theorem ok_full_statement_refuted : ~ checker_establishes_ok_full_statement.
+Proof.
+  destruct BWit.ex_warm_facts as (A & _ & B & C & _).
+  exact (refute_with BWit.ex_warm BWit.warm_site A B C BWit.warm_site_not_ok).
+Qed.
+
+(* ... and, inside bridge_scope and even inside C03's in_scope, by `A.M(1)`: B has a method M(int) *)
+Theorem method_sites_not_from_typing :
+  exists e, bridge_scope BWit.c1 e = true /\ in_scope BWit.c1 false e = true /\ snd (check BWit.c1 e) = None /\
+  ~ ok_full BWit.fe BWit.env (checked BWit.c1 e).
+Proof.
+  exists BWit.ex_meth. destruct BWit.ex_meth_facts as (_ & A & B & C & D). repeat split; auto.
+  intros [_ F]. rewrite D in F. inversion F. apply BWit.m_site_not_ok. assumption.
+Qed.
+
+(* ================================================================== Part 8: bridge_scope against C03's in_scope *)
+(* on raw sources the carve-out of this file is weaker than in_scope of Ty/Sound.v *)
+Lemma all_nodes_and (p q : expr -> bool) :
+  forall e, all_nodes p e = true -> all_nodes q e = true -> all_nodes (fun x => p x && q x) e = true.
+Proof.
+  induction e using expr_ind2. rename H into HF. intros A B.
+  assert (L : forall l, Forall (fun x => all_nodes p x = true -> all_nodes q x = true ->
+                                         all_nodes (fun y => p y && q y) x = true) l ->
+              forallb (all_nodes p) l = true -> forallb (all_nodes q) l = true ->
+              forallb (all_nodes (fun y => p y && q y)) l = true).
+  { induction 1 as [|x r Hx _ IH]; intros C D; [reflexivity|]. cbn [forallb] in *.
+    apply andb_prop in C. destruct C as [C1 C2]. apply andb_prop in D. destruct D as [D1 D2].
+    rewrite (Hx C1 D1), (IH C2 D2). reflexivity. }
+  destruct e; cbn [children] in HF; cbn [all_nodes] in A, B |- *;
+    apply andb_prop in A; destruct A as [A0 A]; apply andb_prop in B; destruct B as [B0 B];
+    rewrite A0, B0; cbn [andb]; try reflexivity.
+  - inversion HF as [|? ? Hx _]; subst. auto.
+  - inversion HF as [|? ? Hl HF2]; subst. inversion HF2 as [|? ? Hr _]; subst.
+    apply andb_prop in A. destruct A as [Al Ar]. apply andb_prop in B. destruct B as [Bl Br].
+    rewrite (Hl Al Bl), (Hr Ar Br). reflexivity.
+  - inversion HF as [|? ? Hl HF2]; subst. inversion HF2 as [|? ? Hr _]; subst.
+    apply andb_prop in A. destruct A as [Al Ar]. apply andb_prop in B. destruct B as [Bl Br].
+    rewrite (Hl Al Bl), (Hr Ar Br). reflexivity.
+  - inversion HF as [|? ? Hx _]; subst. auto.
+  - inversion HF as [|? ? Hl HF2]; subst. inversion HF2 as [|? ? Hr _]; subst.
+    apply andb_prop in A. destruct A as [Al Ar]. apply andb_prop in B. destruct B as [Bl Br].
+    rewrite (Hl Al Bl), (Hr Ar Br). reflexivity.
+  - inversion HF as [|? ? Hx HF2]; subst.
+    apply andb_prop in A. destruct A as [A At]. apply andb_prop in A. destruct A as [Ax Af].
+    apply andb_prop in B. destruct B as [B Bt]. apply andb_prop in B. destruct B as [Bx Bf].
+    rewrite (Hx Ax Bx). cbn [andb].
+    assert (F : opt_all (all_nodes (fun y => p y && q y)) from = true).
+    { destruct from as [f|]; [|reflexivity]. cbn [opt_all] in *. apply (proj1 (Forall_forall _ _) HF2 f); auto.
+      apply in_or_app. left. left. reflexivity. }
+    assert (T : opt_all (all_nodes (fun y => p y && q y)) to = true).
+    { destruct to as [u|]; [|reflexivity]. cbn [opt_all] in *. apply (proj1 (Forall_forall _ _) HF2 u); auto.
+      apply in_or_app. right. left. reflexivity. }
+    rewrite F, T. reflexivity.
+  - inversion HF as [|? ? Hx HF2]; subst. apply andb_prop in A. destruct A as [Ax Aa]. apply andb_prop in B. destruct B as [Bx Ba].
+    rewrite (Hx Ax Bx), (L _ HF2 Aa Ba). reflexivity.
+  - exact (L _ HF A B).
+  - exact (L _ HF A B).
+  - inversion HF as [|? ? Hx _]; subst. auto.
+  - inversion HF as [|? ? Hc HF2]; subst. inversion HF2 as [|? ? Hx HF3]; subst. inversion HF3 as [|? ? Hy _]; subst.
+    apply andb_prop in A. destruct A as [A Ay]. apply andb_prop in A. destruct A as [Ac Ax].
+    apply andb_prop in B. destruct B as [B By]. apply andb_prop in B. destruct B as [Bc Bx].
+    rewrite (Hc Ac Bc), (Hx Ax Bx), (Hy Ay By). reflexivity.
+  - exact (L _ HF A B).
+  - exact (L _ HF A B).
+  - inversion HF as [|? ? Hl HF2]; subst. inversion HF2 as [|? ? Hr _]; subst.
+    apply andb_prop in A. destruct A as [Al Ar]. apply andb_prop in B. destruct B as [Bl Br].
+    rewrite (Hl Al Bl), (Hr Ar Br). reflexivity.
+Qed.
+
+Lemma nonint_num_s_num pin : nonint_num pin = true -> (s_num pin || s_iface pin) = true -> s_num pin = true.
+Proof. destruct pin; cbn; try discriminate; auto. Qed.
+
+Lemma sc_args_facts c nn cols pt : forall args i, sc_args c nn cols pt i args = true ->
+  forallb (scope c nn cols) args = true /\ forallb s_num (retyped_params pt i args) = true.
+Proof.
+  induction args as [|a r IH]; intros i H; [split; reflexivity|].
+  cbn [sc_args] in H. apply andb_prop in H. destruct H as [H Hr]. apply andb_prop in H. destruct H as [Ha Hsa].
+  destruct (IH _ Hr) as [F1 F2]. cbn [forallb retyped_params]. rewrite Ha, F1. split; [reflexivity|].
+  rewrite forallb_app, F2, andb_true_r.
+  destruct (is_arith a && nonint_num (pt i)) eqn:E; [|reflexivity]. apply andb_prop in E. destruct E as [E1 E2].
+  cbn [forallb]. rewrite andb_true_r. unfold sc_arg in Hsa. rewrite E1 in Hsa. apply andb_prop in Hsa. destruct Hsa as [_ Hsa].
+  exact (nonint_num_s_num _ E2 Hsa).
+Qed.
+
+Lemma sc_pairs_in c nn cols : forall ps, sc_pairs c nn cols ps = true ->
+  forall x, In x ps -> exists a k v, x = EPair a k v /\ scope c nn cols k = true /\ scope c nn cols v = true.
+Proof.
+  induction ps as [|y r IH]; intros H x Hin; [destruct Hin|].
+  rewrite sc_pairs_cons in H. destruct y; try discriminate H.
+  apply andb_prop in H. destruct H as [H Hr]. apply andb_prop in H. destruct H as [H _]. apply andb_prop in H. destruct H as [Hk Hv].
+  destruct Hin as [<-|Hin]; [eauto 7|exact (IH Hr x Hin)].
+Qed.
+
+Lemma scope_node_scope c nn : forall e cols, scope c nn cols e = true -> all_nodes (node_scope c) e = true.
+Proof.
+  induction e as [e IH] using expr_size_ind. intros cols H.
+  assert (L : forall l cols', (forall x, In x l -> (esize x < esize e)%nat) -> forallb (scope c nn cols') l = true ->
+              forallb (all_nodes (node_scope c)) l = true).
+  { intros l cols' Hl F. apply forallb_forall. intros x Hx. rewrite forallb_forall in F. exact (IH x (Hl x Hx) cols' (F x Hx)). }
+  destruct e as [an|an nm nsf|an z|an f|an b|an sx|an v|an op x|an op l r|an re l r|an x nm nsf|an x i|an x fr to
+                |an x nm args nsf|an nm args fast|an b args|an x|an|an cnd x y|an es|an ps|an k v];
+    try reflexivity; try discriminate H.
+  - (* unary *) cbn [scope] in H. apply andb_prop in H. destruct H as [Hx _].
+    cbn [all_nodes node_scope andb]. apply (IH x ltac:(cbn [esize]; lia) cols Hx).
+  - (* binary *) cbn [scope] in H. apply andb_prop in H. destruct H as [H _]. apply andb_prop in H. destruct H as [H _].
+    apply andb_prop in H. destruct H as [Hl Hr]. cbn [all_nodes node_scope andb].
+    rewrite (IH l ltac:(cbn [esize]; lia) cols Hl), (IH r ltac:(cbn [esize]; lia) cols Hr). reflexivity.
+  - (* matches *) cbn [scope] in H. apply andb_prop in H. destruct H as [H _]. apply andb_prop in H. destruct H as [H _].
+    apply andb_prop in H. destruct H as [Hl Hr]. cbn [all_nodes node_scope andb].
+    rewrite (IH l ltac:(cbn [esize]; lia) cols Hl), (IH r ltac:(cbn [esize]; lia) cols Hr). reflexivity.
+  - (* property *) cbn [scope] in H. apply andb_prop in H. destruct H as [Hx _].
+    cbn [all_nodes node_scope andb]. apply (IH x ltac:(cbn [esize]; lia) cols Hx).
+  - (* index *) cbn [scope] in H. apply andb_prop in H. destruct H as [H _]. apply andb_prop in H. destruct H as [Hl Hr].
+    cbn [all_nodes node_scope andb].
+    rewrite (IH x ltac:(cbn [esize]; lia) cols Hl), (IH i ltac:(cbn [esize]; lia) cols Hr). reflexivity.
+  - (* slice *) cbn [scope] in H. apply andb_prop in H. destruct H as [H Hu]. apply andb_prop in H. destruct H as [H Hf].
+    apply andb_prop in H. destruct H as [Hx _]. cbn [all_nodes node_scope andb].
+    rewrite (IH x ltac:(cbn [esize]; lia) cols Hx). cbn [andb].
+    assert (F : opt_all (all_nodes (node_scope c)) fr = true).
+    { destruct fr as [f|]; [|reflexivity]. apply andb_prop in Hf. destruct Hf as [Hf _]. cbn [opt_all].
+      apply (IH f ltac:(cbn [esize]; lia) cols Hf). }
+    assert (T : opt_all (all_nodes (node_scope c)) to = true).
+    { destruct to as [u|]; [|reflexivity]. apply andb_prop in Hu. destruct Hu as [Hu _]. cbn [opt_all].
+      apply (IH u ltac:(cbn [esize]; lia) cols Hu). }
+    rewrite F, T. reflexivity.
+  - (* method *) rewrite scope_method in H. apply andb_prop in H. destruct H as [Hx H].
+    change (esize (EMethod an x nm args nsf)) with (S (esize x + lsize args)) in IH, L.
+    cbn [all_nodes node_scope andb]. rewrite (IH x ltac:(lia) cols Hx). cbn [andb].
+    assert (M : exists t, sc_meth c nn cols t nm args = true).
+    { destruct (tyof c cols x) as [| | | | | | |sn'|tp| | |]; try discriminate H; [eauto|].
+      destruct tp; try discriminate H. apply andb_prop in H. destruct H as [_ H]. eauto. }
+    destruct M as [t M]. unfold sc_meth in M. destruct (method_by_name (cc_te c) t nm) as [mt|]; [|discriminate M].
+    destruct mt as [| | | | | | | | |ins v outs| |]; try discriminate M. destruct outs as [|o [|o2 outs]]; try discriminate M.
+    apply andb_prop in M. destruct M as [_ M]. destruct (sc_args_facts _ _ _ _ _ _ M) as [F _].
+    apply (L args cols); [|exact F]. intros y Hy. pose proof (lsize_in _ _ Hy). lia.
+  - (* function *) rewrite scope_function in H. apply andb_prop in H. destruct H as [_ H].
+    change (esize (EFunction an nm args fast)) with (S (lsize args)) in IH, L.
+    destruct (lookup_name c nm) as [tg|] eqn:Hl; [|discriminate H].
+    destruct (tg_ty tg) as [| | | | | | | | |ins v outs| |] eqn:Hty; try discriminate H.
+    destruct outs as [|o [|o2 outs]]; try discriminate H.
+    apply andb_prop in H. destruct H as [H Ha]. apply andb_prop in H. destruct H as [Hamb Hsig].
+    destruct (sc_args_facts _ _ _ _ _ _ Ha) as [F1 F2].
+    cbn [all_nodes node_scope]. apply andb_true_intro. split.
+    + unfold fn_scope. rewrite Hl, Hty. cbn [is_func_type dereference under].
+      destruct (retyped_params (param_ty ins v (tg_method tg)) 0 args) as [|p0 ps]; [reflexivity|].
+      rewrite F2. unfold callee_plain. rewrite Hty, ty_eqb_refl, Hamb, Hsig. reflexivity.
+    + apply (L args cols); [|exact F1]. intros y Hy. pose proof (lsize_in _ _ Hy). lia.
+  - (* builtin *) cbn [all_nodes node_scope andb].
+    destruct b; destruct args as [|x [|cl [|d rest]]]; try discriminate H;
+    [ cbn [scope] in H; apply andb_prop in H; destruct H as [Hx _]; cbn [forallb];
+      rewrite (IH x ltac:(cbn [esize lsize]; lia) cols Hx); reflexivity
+    | destruct cl; try discriminate H; cbn [scope] in H; apply andb_prop in H; destruct H as [Hx H];
+      destruct (tyof c cols x) as [| | | | |el| | | | | |]; try discriminate H;
+      apply andb_prop in H; destruct H as [Hb _]; cbn [forallb all_nodes node_scope andb];
+      rewrite (IH x ltac:(cbn [esize lsize]; lia) cols Hx), (IH cl ltac:(cbn [esize lsize]; lia) _ Hb); reflexivity .. ].
+  - (* conditional *) cbn [scope] in H. apply andb_prop in H. destruct H as [H _]. apply andb_prop in H. destruct H as [H _].
+    apply andb_prop in H. destruct H as [H Hy]. apply andb_prop in H. destruct H as [Hc Hx].
+    cbn [all_nodes node_scope andb].
+    rewrite (IH cnd ltac:(cbn [esize]; lia) cols Hc), (IH x ltac:(cbn [esize]; lia) cols Hx), (IH y ltac:(cbn [esize]; lia) cols Hy).
+    reflexivity.
+  - (* array *) rewrite scope_array in H. change (esize (EArray an es)) with (S (lsize es)) in IH, L.
+    cbn [all_nodes node_scope andb]. apply (L es cols); [|exact H]. intros y Hy. pose proof (lsize_in _ _ Hy). lia.
+  - (* map *) rewrite scope_map in H. change (esize (Ast.EMap an ps)) with (S (lsize ps)) in IH.
+    cbn [all_nodes node_scope andb]. apply forallb_forall. intros y Hy.
+    destruct (sc_pairs_in c nn cols ps H y Hy) as (a & k & v & -> & Hk & Hv).
+    pose proof (lsize_in _ _ Hy) as Hs. cbn [esize] in Hs. cbn [all_nodes node_scope andb].
+    rewrite (IH k ltac:(lia) cols Hk), (IH v ltac:(lia) cols Hv). reflexivity.
+Qed.
+
+Theorem in_scope_bridge_scope c nn e : raw e = true -> in_scope c nn e = true -> bridge_scope c e = true.
+Proof.
+  intros Hr Hs. unfold bridge_scope. apply all_nodes_and; [exact Hr|]. exact (scope_node_scope c nn e [] Hs).
+Qed.
+
+(* ================================================================== Part 9: any two configurations *)
+Lemma bridge_scope_untyped c e : cc_types c = None -> raw e = true -> bridge_scope c e = true.
+Proof.
+  intros Hn. apply all_nodes_impl. intros x H. rewrite H, (node_scope_untyped c x Hn). reflexivity.
+Qed.
+
+(* the general form: two checker configurations whose types tables describe the environment value
+   (with / without declared type, different result directive, strictness, ...); verdict-independent *)
+Theorem variants_agree c1 c2 fe env e :
+  callee_ok c1 fe env -> callee_ok c2 fe env -> fast_sound fe ->
+  bridge_scope c1 e = true -> bridge_scope c2 e = true ->
+  wf (checked c1 e) = true -> wf (checked c2 e) = true ->
+  Forall (site_ok fe env) (method_sites (checked c1 e)) -> Forall (site_ok fe env) (method_sites (checked c2 e)) ->
+  forall cfg ctx s v1 s1 v2 s2,
+  eval fe cfg env ctx (checked c1 e) s = Done v1 s1 -> eval fe cfg env ctx (checked c2 e) s = Done v2 s2 ->
+  v1 = v2 /\ s1 = s2.
+Proof.
+  intros H1 H2 Hfast B1 B2 W1 W2 M1 M2.
+  destruct (checker_tree_ok c1 fe env e H1 B1) as (S1 & F1 & Q1).
+  destruct (checker_tree_ok c2 fe env e H2 B2) as (S2 & F2 & Q2).
+  intros cfg ctx s v1 s1 v2 s2.
+  apply (modes_agree_partial fe cfg env ctx s (checked c1 e) (checked c2 e) v1 s1 v2 s2 Hfast); auto.
+  - unfold same_shape in *. congruence.
+  - split; [exact F1|]. apply sites_established; assumption.
+  - split; [exact F2|]. apply sites_established; assumption.
+Qed.
+
+(* ================================================================== Part 10: a carve-out on the source alone *)
+(* no argument of a METHOD call is an integer literal or a + - * / node: then no method argument is
+   retyped, the returned tree has no method site and nothing is left as a hypothesis *)
+Definition meth_plain (e : expr) : bool :=
+  match e with
+  | EMethod _ _ _ args _ => forallb (fun a => negb (is_arith a)) args
+  | _ => true
+  end.
+
+Definition bridge_scope_src (c : cconfig) (e : expr) : bool :=
+  all_nodes (fun x => lit_raw x && node_scope c x && meth_plain x) e.
+
+Lemma meth_plain_arg an x nm args ns j a :
+  meth_plain (EMethod an x nm args ns) = true -> nth_error args j = Some a -> is_arith a = true -> False.
+Proof.
+  cbn [meth_plain]. intros H N A. rewrite forallb_forall in H. specialize (H a (nth_error_In _ _ N)).
+  rewrite A in H. discriminate H.
+Qed.
+
+Lemma bridge_scope_src_weaken c e : bridge_scope_src c e = true -> bridge_scope c e = true.
+Proof.
+  apply all_nodes_impl. intros x H. apply andb_prop in H. destruct H as [H _]. exact H.
+Qed.
+
+Theorem checker_tree_ok_src c fe env e :
+  callee_ok c fe env -> bridge_scope_src c e = true ->
+  same_shape e (checked c e) /\ ok_full fe env (checked c e).
+Proof.
+  intros Hc Hs. rewrite checked_visit.
+  destruct (tree_inv c fe env (fun x => lit_raw x && node_scope c x && meth_plain x)
+              (fun x H => proj1 (andb_prop _ _ (proj1 (andb_prop _ _ H))))
+              (fun x H => proj2 (andb_prop _ _ (proj1 (andb_prop _ _ H)))) Hc
+              (site_ok fe env) (fun st _ H => H)
+              (fun an x nm args ns j a k H N A =>
+                 match meth_plain_arg an x nm args ns j a (proj2 (andb_prop _ _ H)) N A with end)
+              e [] None Hs) as (I1 & I2 & I3).
+  unfold same_shape, ok_full. auto.
+Qed.
+
+Theorem checker_tree_ok_src_untyped c fe env e :
+  cc_types c = None -> all_nodes (fun x => lit_raw x && meth_plain x) e = true ->
+  same_shape e (checked c e) /\ ok_full fe env (checked c e).
+Proof.
+  intros Hn Hs. rewrite checked_visit.
+  destruct (tree_inv c fe env (fun x => lit_raw x && meth_plain x)
+              (fun x H => proj1 (andb_prop _ _ H)) (fun x _ => node_scope_untyped c x Hn) (callee_ok_untyped c fe env Hn)
+              (site_ok fe env) (fun st _ H => H)
+              (fun an x nm args ns j a k H N A =>
+                 match meth_plain_arg an x nm args ns j a (proj2 (andb_prop _ _ H)) N A with end)
+              e [] None Hs) as (I1 & I2 & I3).
+  unfold same_shape, ok_full. auto.
+Qed.
+
+(* 1''. every carve-out decidable on the configuration and the SOURCE; no site hypothesis *)
+Theorem checker_establishes_ok_full_src c perm ftab nn fe env T sn e t e' :
+  (forall l, Permutation (perm l) l) -> wf_tenv (cc_te c) = true ->
+  env_ok c perm ftab nn T sn env -> fenv_ok (cc_te c) ftab nn fe ->
+  check c e = (t, e', None) -> bridge_scope_src c e = true ->
+  ok_full fe env e' /\ same_shape e e'.
+Proof.
+  intros Hperm Hwf Henv Hfe Hck Hs. rewrite <- (check_checked _ _ _ _ _ Hck).
+  destruct (checker_tree_ok_src c fe env e (callee_ok_env c perm ftab nn fe env T sn Hperm Hwf Henv Hfe) Hs) as [A B].
+  auto.
+Qed.
+
+(* 2''. typed against untyped: source carve-out bridge_scope_src, tree carve-out wf *)
+Theorem typed_vs_untyped_src c1 c0 perm ftab nn fe env T sn e t1 e1 t0 e0 :
+  (forall l, Permutation (perm l) l) -> wf_tenv (cc_te c1) = true ->
+  env_ok c1 perm ftab nn T sn env -> fenv_ok (cc_te c1) ftab nn fe -> fast_sound fe ->
+  cc_types c0 = None ->
+  bridge_scope_src c1 e = true ->
+  check c1 e = (t1, e1, None) -> check c0 e = (t0, e0, None) ->
+  wf e1 = true -> wf e0 = true ->
+  forall cfg ctx s v1 s1 v0 s0,
+  eval fe cfg env ctx e1 s = Done v1 s1 -> eval fe cfg env ctx e0 s = Done v0 s0 -> v1 = v0 /\ s1 = s0.
+Proof.
+  intros Hperm Hwf Henv Hfe Hfast Hn Hs Hc1 Hc0 W1 W0 cfg ctx s v1 s1 v0 s0.
+  destruct (checker_establishes_ok_full_src c1 perm ftab nn fe env T sn e t1 e1 Hperm Hwf Henv Hfe Hc1 Hs) as [O1 S1].
+  assert (Hs0 : all_nodes (fun x => lit_raw x && meth_plain x) e = true).
+  { revert Hs. apply all_nodes_impl. intros x H. apply andb_prop in H. destruct H as [H Hm].
+    apply andb_prop in H. destruct H as [Hl _]. rewrite Hl, Hm. reflexivity. }
+  destruct (checker_tree_ok_src_untyped c0 fe env e Hn Hs0) as [S0 O0]. rewrite (check_checked _ _ _ _ _ Hc0) in S0, O0.
+  apply (modes_agree_partial fe cfg env ctx s e1 e0 v1 s1 v0 s0 Hfast); auto.
+  unfold same_shape in *. congruence.
+Qed.
+
+(* ---- non-vacuity on BWit ---- *)
+Module BSrc.
+Import BWit.
+(* A.M(Y) > 0.0 and Inc(1 + 2) > 1: a method call (argument not retyped) and a function call *)
+Definition ex_src : expr :=
+  EBinary a0 BAndWord
+    (EBinary a0 BGt (EMethod a0 (id_ "A") "M" [id_ "Y"] false) (EFloat a0 0.0))
+    (EBinary a0 BGt (EFunction a0 "Inc" [EBinary a0 BAdd (EInt a0 1) (EInt a0 2)] false) (EInt a0 1)).
+
+Definition src_hyps (e : expr) : Prop :=
+  bridge_scope_src c1 e = true /\ snd (check c1 e) = None /\ snd (check c0 e) = None /\
+  wf (checked c1 e) = true /\ wf (checked c0 e) = true.
+
+Lemma ex_src_hyps : src_hyps ex_src /\ src_hyps ex_brief /\ src_hyps ex_or /\ src_hyps ex_calls /\ src_hyps ex_scale.
+Proof. vm_compute. repeat split. Qed.
+
+(* `A.M(1)` is outside the source carve-out *)
+Lemma ex_meth_outside : bridge_scope_src c1 ex_meth = false.
+Proof. vm_compute. reflexivity. Qed.
+
+Lemma ex_src_runs :
+  run1 ex_src = res_true [("A.M", [VNum (NFlt KF64 0.5)]); ("Inc", [vint 3])] /\
+  run0 ex_src = res_true [("A.M", [VNum (NFlt KF64 0.5)]); ("Inc", [vint 3])] /\
+  checked c1 ex_src <> checked c0 ex_src.
+Proof. split; [vm_compute; reflexivity|]. split; [vm_compute; reflexivity|]. vm_compute. intros H. discriminate H. Qed.
+
+Lemma src_agree e : src_hyps e ->
+  forall cfg ctx s v1 s1 v0 s0,
+  eval fe cfg env ctx (checked c1 e) s = Done v1 s1 -> eval fe cfg env ctx (checked c0 e) s = Done v0 s0 ->
+  v1 = v0 /\ s1 = s0.
+Proof.
+  intros (Hs & A1 & A0 & W1 & W0).
+  apply (typed_vs_untyped_src c1 c0 perm_id ftab false fe env (TStruct "Env") "Env" e
+           (fst (fst (check c1 e))) (checked c1 e) (fst (fst (check c0 e))) (checked c0 e)
+           perm_ok te_wf (env_is_ok false) (fe_ok false) fe_fast_sound eq_refl Hs); auto.
+  - rewrite (check_split c1 e), A1. reflexivity.
+  - rewrite (check_split c0 e), A0. reflexivity.
+Qed.
+End BSrc.
